@@ -4,22 +4,21 @@ Import ListNotations.
 From Cffi Require Import C26.Model.
 
 Definition py_prog : prog := [
-  (*  0 *) IRead 3 1;   (* x = self._init_once_cache[tag] *)
-  (*  1 *) INewX 2;   (* x = (False, allocate_lock()) *)
-  (*  2 *) ISetDefaultX false 3;   (* self._init_once_cache.setdefault(tag, x) *)
-  (*  3 *) IIfDone 4 5;   (* if x[0]: *)
-  (*  4 *) IRetX;   (* return x[1] *)
-  (*  5 *) IAcquire 6;   (* with x[1]: *)
-  (*  6 *) IRead 7 16;   (* x = self._init_once_cache[tag] *)
-  (*  7 *) IIfDone 8 10;   (* if x[0]: *)
-  (*  8 *) IRelease 9;   (* (leave with) *)
-  (*  9 *) IRetX;   (* return x[1] *)
-  (* 10 *) ICallF 11 14;   (* result = func() *)
-  (* 11 *) IStore 12;   (* self._init_once_cache[tag] = (True, result) *)
-  (* 12 *) IRelease 13;   (* (leave with) *)
-  (* 13 *) IRetResult;   (* return result *)
-  (* 14 *) IRelease 15;   (* (leave with, exception from func()) *)
-  (* 15 *) IRaise FExn;   (* (propagate) *)
-  (* 16 *) IRelease 17;   (* (leave with, KeyError) *)
-  (* 17 *) IRaise KeyErr   (* (propagate) *)
+  (*  0 *) IRead 2 1;   (* x = self._init_once_cache[tag] *)
+  (*  1 *) ISetDefault 2;   (* x = self._init_once_cache.setdefault(tag, (False, allocate_lock())) *)
+  (*  2 *) IIfDone 3 4;   (* if x[0]: *)
+  (*  3 *) IRetX;   (* return x[1] *)
+  (*  4 *) IAcquire 5;   (* with x[1]: *)
+  (*  5 *) IRead 6 15;   (* x = self._init_once_cache[tag] *)
+  (*  6 *) IIfDone 7 9;   (* if x[0]: *)
+  (*  7 *) IRelease 8;   (* (leave with) *)
+  (*  8 *) IRetX;   (* return x[1] *)
+  (*  9 *) ICallF 10 13;   (* result = func() *)
+  (* 10 *) IStore 11;   (* self._init_once_cache[tag] = (True, result) *)
+  (* 11 *) IRelease 12;   (* (leave with) *)
+  (* 12 *) IRetResult;   (* return result *)
+  (* 13 *) IRelease 14;   (* (leave with, exception from func()) *)
+  (* 14 *) IRaise FExn;   (* (propagate) *)
+  (* 15 *) IRelease 16;   (* (leave with, KeyError) *)
+  (* 16 *) IRaise KeyErr   (* (propagate) *)
 ].
